@@ -77,6 +77,7 @@ def run(ctx):
 
 
 def decimal_part(ctx):
+    import os
     """(b) decimal, non-representable times: unit 0.01 s, max_dt in {0.01, 0.05, 0.1, 0.3}; travels recorded from both runtimes are
     validated by TLC against PlanOK (MF_Trace.tla), the property's own statement with its own 1e-9 s slack."""
     import tlc
@@ -123,7 +124,35 @@ def decimal_part(ctx):
                 evs += te
             traces.append(evs)
             meta.append(("cpp[%d%d]" % (hc, hk), s))
-    clean = [[{k: e[k] for k in ("dir", "steps", "resid_ps")} if "exception" not in e else {"dir": 9, "steps": [], "resid_ps": 10 ** 9} for e in t] for t in traces]
+    # long single moves (tens of thousands of sub-steps: rounding must not accumulate), both runtimes
+    moves = [(10, 0, 360000, False), (5, 0, -720000 // (2 if ctx.quick else 1), True), (10, 123, 250007, True)]
+    if not ctx.quick:
+        moves += [(1, 0, 100000, False), (30, -100000, 260011, True), (5, 777, -300000, False)]
+    res = workers.run_tasks([("tasks", "mf_long_batch", ([m], unit), 1200) for m in moves], procs=ctx.cores)
+    for m, (status, outs) in zip(moves, res):
+        if status != "ok":
+            raise RuntimeError(outs)
+        traces.append(outs[0])
+        meta.append(("py-long", {"max": m[0], "t0": m[1], "out": m[2], "hasControl": m[3]}))
+    import cppbuild
+    long_jobs = [{"sources": ["/verif/cxx/mf_long.cpp"], "out": os.path.join(ctx.work, "mf_long_%d%d" % (hc, hk)),
+                  "defines": ["HAS_CONTROL=%d" % hc, "HAS_CALIBRATION=%d" % hk, "UNIT_SCALE=0.01"], "_c": (hc, hk)} for hc, hk in ((0, 0), (1, 1), (0, 1), (1, 0))]
+    for job, (okb, errb) in zip(long_jobs, cppbuild.compile_many(long_jobs)):
+        hc, hk = job["_c"]
+        if not okb:
+            ctx.violation("cpp:build:control=%d,calibration=%d" % (hc, hk), errb[-400:], {})
+            continue
+        sel = [m for m in moves if bool(m[3]) == bool(hc)]
+        rc, so, se = cppbuild.run_exe(job["out"], "".join("%d %d %d\n" % (m[0], m[1], m[2]) for m in sel), timeout=600)
+        blocks = so.split("MOVE\n")[1:]
+        for m, blk in zip(sel, blocks):
+            dts = [float.fromhex(x) for x in blk.split("END")[0].split()]
+            ev = mfcheck.travel_events([("P", d, 0) for d in dts], m[1] * unit, [], 0, m[2] * unit, m[0] * unit)
+            for e in ev:
+                e["dts"] = e["dts"][:5] + ["..."] + e["dts"][-3:] if len(e["dts"]) > 10 else e["dts"]
+            traces.append(ev)
+            meta.append(("cpp-long[%d%d]" % (hc, hk), {"max": m[0], "t0": m[1], "out": m[2], "hasControl": m[3]}))
+    clean = [[{k: e[k] for k in mfcheck.TRACE_KEYS} if "exception" not in e else dict(mfcheck.BAD_EVENT) for e in t] for t in traces]
     verdicts, tres = trace.validate("MF_Trace", clean)
     ntrav = 0
     for (side, s), t, v in zip(meta, traces, verdicts):
@@ -174,12 +203,12 @@ def repo_tests_part(ctx):
             continue
         ev = mfcheck.travel_events([tuple(o) for o in t["ops"]], t["t0"], t["readings"], 0, t["out"], t["max_dt"])
         if ev is None:
-            ev = [{"dir": 9, "steps": [], "resid_ps": 10 ** 9, "start": t["t0"], "target": t["out"], "dts": "one sensor update per reading expected"}]
+            ev = [dict(mfcheck.BAD_EVENT, start=t["t0"], target=t["out"], dts="one sensor update per reading expected")]
         # hold at the last reading
         exp_held = t["readings"][-1] if t["readings"] else t["t0"]
         if t["held_after"] != exp_held:
-            ev.append({"dir": 9, "steps": [], "resid_ps": 10 ** 9, "start": t["t0"], "target": exp_held, "dts": "held time %r" % t["held_after"]})
-        traces.append([{k: e[k] for k in ("dir", "steps", "resid_ps")} for e in ev])
+            ev.append(dict(mfcheck.BAD_EVENT, start=t["t0"], target=exp_held, dts="held time %r" % t["held_after"]))
+        traces.append([{k: e.get(k, mfcheck.BAD_EVENT[k]) for k in mfcheck.TRACE_KEYS} for e in ev])
         keep.append((t, ev))
     # de-duplicate identical traces (hypothesis repeats examples), keep TLC input small
     seen, utr, ukeep = set(), [], []
